@@ -12,8 +12,9 @@ from harness.props import creation as cr
 
 B = 16384
 METADIR = ["metas"]
-FNAMES = ["a", "b", "x.bin", "data", "é", "a b", "f", "cafe\u0301.txt", "A\u030a", "\u212b.bin"]   # incl. non-NFC names
-DNAMES = ["d", "e", "sub", "ü", "u\u0308"]
+FNAMES = ["a", "b", "x.bin", "data", "é", "a b", "f", "cafe\u0301.txt", "A\u030a", "\u212b.bin",   # incl. non-NFC names
+          "notes ", "etc...", " lead", "dot."]                                               # trailing dots / blanks
+DNAMES = ["d", "e", "sub", "ü", "u\u0308", "Vol.", "trail "]
 
 
 def gen_torrent(rng, tag, tier, version=None, allow_dup_names=True):
